@@ -149,6 +149,12 @@ def check_posteriors(ctx, case):
             if alleles != exp_sorted:
                 problems.append(Problem("gt:alleles", "genotype %s -> GT %s, expected %s (ref_observed=%s)" % (gen.tolist(), alleles, exp_sorted, ref_observed)))
                 break
+            # allele numbers beyond 127 (many ALT alleles nominated by many samples) must survive
+            big = {k_: v + 200 for k_, v in labels.items()}
+            alleles_big = [int(x) for x in _genotype_as_alleles(gen, big)]
+            if alleles_big != [x + 200 if x >= 0 else -1 for x in exp_sorted]:
+                problems.append(Problem("gt:large_allele_numbers", "labels shifted by 200: GT %s, expected %s" % (alleles_big, [x + 200 if x >= 0 else -1 for x in exp_sorted])))
+                break
             if not ref_observed and 0 in alleles:
                 problems.append(Problem("gt:masked_reference_used", "GT %s uses allele 0 although the reference is masked" % alleles))
                 break
@@ -275,4 +281,4 @@ def replay(ctx, case):
 def run(ctx):
     q = ctx.quick
     ctx.hyp("posteriors", posteriors_case(), check_posteriors, 1500 if q else 10000)
-    ctx.hyp("cli", cli_case(), check_cli, 15 if q else 80)
+    ctx.hyp("cli", cli_case(), check_cli, 35 if q else 120)
